@@ -80,11 +80,23 @@ def extra(ctx):
     if got != exp or [w["kind"] for w in (tab["reg_empty"] or [])] != ["PostInstall"]:
         found.append({"what": "home.httpRegister no longer builds the chain postInstall(optionalAuth(gzip(ensure(method, h)))): it builds %s (and %s for the empty method)"
                               % (got, [w["kind"] for w in (tab["reg_empty"] or [])]), "detail": tab["reg_method"], "key": "httpRegister-chain"})
+    su = tab.get("startup") or {}
+    flags = ["nil_checked", "fail_ret_err", "run_fatal", "fatal_exits", "assigns_ok"]
+    ctx.extra_coverage["startup_glue"] = {k: su.get(k) for k in flags + ["assigns", "init_users_pos", "run_assign_pos"]}
+    ctx.extra_obligations += len(flags)
+    bad = [k for k in flags if not (su.get("found") and su.get(k))]
+    ctx.extra_discharged += len(flags) - len(bad)
+    if bad:
+        why = "; ".join(su.get("notes") or []) or "the start-up idiom was not recognised (%s)" % ", ".join(bad)
+        found.append({"what": "start-up glue: " + why + ": with users configured and an unreadable data/sessions.db the server "
+                              "would start with globalContext.auth == nil and optionalAuth lets every request through "
+                              "(C11_startup_code fails; see C11_startup_slips_refuted)",
+                      "detail": su, "key": "startup:" + ",".join(bad)})
     if not found:
         ctx.extra_discharged += len(routes)
         return
     ctx.extra_discharged += len(routes) - len([f for f in found if f["key"].startswith("route:")])
     # put the precise statements first, so that the replay file names them
-    fails = [{"kind": "proof", "what": "C11_all_routes_guarded fails: " + f["what"], "detail": f["detail"],
+    fails = [{"kind": "proof", "what": ("C11_startup_code fails: " if f["key"].startswith("startup:") else "C11_all_routes_guarded fails: ") + f["what"], "detail": f["detail"],
               "finding_key": f["key"], "failing_input_found": False} for f in found]
     ctx.failures[:0] = fails
